@@ -2,6 +2,7 @@
 package c13
 
 import (
+	"context"
 	"encoding/json"
 	"fmt"
 	"sort"
@@ -32,11 +33,20 @@ func init() {
 				runs = 600
 			}
 			sa, _ := json.Marshal(map[string]int{"runs": runs})
-			return []core.Batch{{Name: "long-history", Args: a, Timeout: 2400}, {Name: "stress", Args: sa, Timeout: 1200}}
+			idle := 2
+			if tier == "thorough" {
+				idle = 12
+			}
+			ia, _ := json.Marshal(map[string]int{"runs": idle})
+			return []core.Batch{{Name: "long-history", Args: a, Timeout: 2400}, {Name: "stress", Args: sa, Timeout: 1200}, {Name: "idle", Args: ia, Timeout: 1200}}
 		},
 		RunExtra: func(b core.Batch, em *core.Emitter) {
 			if b.Name == "stress" {
 				runStress(b, em)
+				return
+			}
+			if b.Name == "idle" {
+				runIdle(b, em)
 				return
 			}
 			runLong(b, em)
@@ -541,6 +551,9 @@ func (w *world) check() bool {
 		if !u.connected || !u.completed {
 			continue
 		}
+		// the previous user's list request may itself have set notifications in motion (a user who was marked away
+		// becomes active again by asking): let them arrive before folding
+		w.srv.Quiesce(refclient.Watchdog)
 		if !w.fold(u) {
 			return false
 		}
@@ -1049,5 +1062,62 @@ func runStress(b core.Batch, em *core.Emitter) {
 			}
 			em.Emit(res)
 		})
+	})
+}
+
+// runIdle: the idle timer marks users away (their idle counters are set 5 s short of the threshold, then the real
+// keepaliveHandler runs one tick); afterwards, and again after everybody has become active again, every client's
+// folded list must equal a fresh list, flags included - also the idle user's own entry.
+func runIdle(b core.Batch, em *core.Emitter) {
+	var a struct {
+		Runs int `json:"runs"`
+	}
+	json.Unmarshal(b.Args, &a)
+	core.Parallel(a.Runs, 8, func(run int) {
+		(&core.Simple{Id: "C13", Case: func(c *core.Case) {
+			r := c.R
+			n := 3 + r.Intn(3)
+			var accs []fixture.Account
+			w := &world{c: c, kinds: map[string]int{}}
+			for i := 0; i < n; i++ {
+				accs = append(accs, fixture.Account{Login: fmt.Sprintf("u%d", i), Name: fmt.Sprintf("Account %d", i), Access: rc.Bitmap(9, 10, 11, 20, 26, 40)})
+				w.users = append(w.users, &muser{idx: i, accName: fmt.Sprintf("Account %d", i)})
+			}
+			accs = append(accs, fixture.Account{Login: "guest", Name: "guest", Access: fixture.GuestBits()})
+			srv, err := fixture.New(fixture.Options{Accounts: accs})
+			if err != nil {
+				c.Unsure("fixture: %v", err)
+				return
+			}
+			defer srv.Close()
+			w.srv = srv
+			for _, u := range w.users {
+				w.step++
+				if !w.login(u, true) {
+					return
+				}
+			}
+			if !w.check() {
+				return
+			}
+			for _, cc := range srv.S.ClientMgr.List() {
+				cc.IdleTime = 295
+			}
+			ctx, cancel := context.WithCancel(context.Background())
+			defer cancel()
+			go srv.S.VerifKeepaliveHandler(ctx)
+			time.Sleep(11 * time.Second)
+			w.log = append(w.log, "the idle timer ticked: every user is marked away")
+			w.step++
+			c.Count("idle_transitions", n)
+			if !w.check() { // fetching the list makes each user active again, one after the other
+				return
+			}
+			w.step++
+			if !w.check() {
+				return
+			}
+			c.Describe(fmt.Sprintf("idle/n%d", n), map[string]any{"clients": n})
+		}}).RunOne(b.Tier, b.Seed, 900000+run, em)
 	})
 }
